@@ -278,7 +278,7 @@ def gen_case(rng):
     if zones is not None:
         zones = [min(z, 2**38) for z in zones]
     return dict(mem=mem, zones=zones, zstyle=rng.choice([0, 0, 1, 2]), vmstat=vm, filler=rng.random() < 0.8,
-                origin=prof)
+                origin=prof, absent_as=rng.choice(["enoent", "enoent", "eacces"]))
 
 
 # ----------------------------------------------------------------------------------------------
@@ -571,6 +571,13 @@ def run_case(case, acc):
         fs.put("vmstat", render_vmstat(case))
     vk = vkernel.VK()
     vk.mount("/vproc", fs)
+    if case.get("absent_as") == "eacces":
+        # an absent table served as "present but not for you" (restricted container) instead of ENOENT
+        denied = {"/vproc/" + n for n, v in (("zoneinfo", case["zones"]), ("vmstat", case["vmstat"])) if v is None}
+        if denied:
+            acc.count("absent_tables_served_as_eacces", len(denied))
+            vk.rules.append(lambda kind, path: PermissionError(13, "Permission denied", path)
+                            if kind == "open" and path in denied else None)
     viols = []
     branches = set()
     with vk:
